@@ -49,6 +49,11 @@ def run(chk):
                 UC.check_inside_unit(chk, 'C15', sess, f, san, name + ' sanitised result inside the unit set', 'sanitize-outside-unit', rdec=sess.dec_plain)
                 comp = sess.ans.get('plain_compat', [None])[0]
                 ok = bool(comp) and comp.get('same_num_vars') is True
+                # the returned object itself (not only its BDD) lives in the canonical encoding: its own vertices() / colors()
+                # projections equal those of the same BDD wrapped in the context of SymbolicAsyncGraph::new(network)
+                pj = (sess.runs[0].get('proj') or [None])[0]
+                if ok and pj is not None and ('panic' in pj or pj.get('v') != comp.get('exp_v') or pj.get('c') != comp.get('exp_c')):
+                    ok = False; comp = {'projection_of_returned_object': pj, 'expected_vertices': comp.get('exp_v'), 'expected_colors': comp.get('exp_c')}
                 chk.obligation(name + ' usable with a graph built by SymbolicAsyncGraph::new', 'native', 'holds' if ok else 'violated', 0.0, False)
                 if not ok: chk.violation(name, 'canonical-context', {'instance': inst.name, 'formula': S.show(f), 'k': k, 'compat': comp}, f'sanitised result is not in the canonical context: {comp}')
             if len(set(per_k.values())) > 1:
